@@ -322,6 +322,15 @@ int main(void)
 			printf("> op %s calls=%u", xstatus_name(st), ncalls);
 			if (ncalls) printf(" %d %" PRIu64, (int)seen.as, (uint64_t)seen.addr);
 			printf(" | depth=%u pages=%u left=%u nest=%u\n", maxdepth, npages, depth_now(ctx), gp_maxdepth);
+		} else if (sscanf(line, "econv %d %d %" SCNu64, &tas, &t, &a) == 3) {
+			/* C16: addrxlat_fulladdr_conv and what it leaves in the context's error string; the context is
+			 * the one the preceding calls used (a stale message of an earlier call is part of the history) */
+			addrxlat_fulladdr_t fa; addrxlat_status st; const char *e;
+			fa.as = t; fa.addr = a;
+			st = addrxlat_fulladdr_conv(&fa, tas, ctx, nosys ? NULL : sys);
+			e = addrxlat_ctx_get_err(ctx);
+			printf("> econv %s %d %" PRIu64 " %s | %s\n", xstatus_name(st), (int)fa.as, (uint64_t)fa.addr,
+			       e && *e ? "set" : "empty", e && *e ? e : "-");
 		} else if (sscanf(line, "conv %d %d %" SCNu64, &tas, &t, &a) == 3) {
 			addrxlat_fulladdr_t fa; addrxlat_status st;
 			fa.as = t; fa.addr = a;
